@@ -180,17 +180,34 @@ theorem pushDefaultK_total : ∀ (b : B) (k : Nat) (dt : DataType) (n : Bool) (m
     refine ⟨.list p large fm v' offs' el, ?_, room_both (by simp only [room, hl])⟩
     simp only [pushDefaultK, ctx_ok]
     exact (bind_ok _ _ _).2 ⟨(v', offs'), h, rfl⟩
-  | .fixedSizeList p fm m len v cur el, k, dt, n, md, hwf, hs, hd, _ => by
+  | .fixedSizeList p fm m len v cur el, k, dt, n, md, hwf, hs, hd, hk => by
     simp only [WFB] at hwf
     simp only [Shape] at hs
     obtain ⟨_, cname, cdt, cn, cmd, rfl, hsel⟩ := hs
-    simp only [defOK, defOKF, noDefUF, Bool.and_eq_true] at hd
-    obtain ⟨el', hel, _, hr⟩ := pushDefaultK_total el (k * m) cdt cn cmd hwf.2.2 hsel hd.1
-      (fun h => by rw [hd.2] at h; cases h)
-    have hr := hr hd.2
+    simp only [defOK, defOKF, noDefUF, Bool.and_eq_true, Bool.or_eq_true, decide_eq_true_eq] at hd
+    simp only [noDefU, noDefUF, room] at hk
     obtain ⟨⟨len', v'⟩, h⟩ := iter_pure_total (fun (s : Nat × Validity) => (s.1 + 1, setValidityDefault s.2 s.1)) k (len, v)
-    refine ⟨.fixedSizeList p fm m len' v' cur el', ?_, room_both (by simp only [room, hr])⟩
-    simp only [pushDefaultK, ctx_ok, h, hel, bind, Except.bind]; rfl
+    cases hnd : noDefU cdt with
+    | true =>
+      obtain ⟨el', hel, _, hr⟩ := pushDefaultK_total el (k * m) cdt cn cmd hwf.2.2 hsel hd.1
+        (fun h => by rw [hnd] at h; cases h)
+      have hr := hr hnd
+      refine ⟨.fixedSizeList p fm m len' v' cur el', ?_, room_both (by simp only [room, hr])⟩
+      simp only [pushDefaultK, ctx_ok, h, hel, bind, Except.bind]; rfl
+    | false =>
+      -- a union below receives the defaults: the list has at most one element per row
+      have hm : m ≤ 1 := by
+        rcases hd.2 with h' | h'
+        · omega
+        · rw [hnd] at h'; cases h'
+      have hkm : k * m ≤ k := by
+        calc k * m ≤ k * 1 := Nat.mul_le_mul_left k hm
+          _ = k := Nat.mul_one k
+      have hk' := hk hnd
+      obtain ⟨el', hel, hr, _⟩ := pushDefaultK_total el (k * m) cdt cn cmd hwf.2.2 hsel hd.1 (fun _ => by omega)
+      refine ⟨.fixedSizeList p fm m len' v' cur el', ?_, by simp only [room]; omega,
+        fun h' => by simp only [noDefU, noDefUF, hnd] at h'; cases h'⟩
+      simp only [pushDefaultK, ctx_ok, h, hel, bind, Except.bind]; rfl
   | .map p mm v offs ks vs, k, _, _, _, hwf, _, _, _ => by
     simp only [WFB] at hwf
     obtain ⟨v', offs', h, _, hl⟩ := iter_dup_total k v offs hwf.1.ne_nil
@@ -355,11 +372,23 @@ theorem pushNone_complete : ∀ (b : B) (dt : DataType) (n : Bool) (md : Metadat
     have hn := interpNull_nullable hi (by simp)
     subst hn
     obtain ⟨v', hv⟩ := setValidity_false_total hv0 len
-    simp only [total, totalF, defOKF, noDefUF, Bool.and_eq_true, Bool.not_true, Bool.false_or] at ht
-    obtain ⟨el', hel, _, hr⟩ := pushDefaultK_total el m cdt cn cmd hwf.2.2 hsel ht.2.1
-      (fun h => by rw [ht.2.2] at h; cases h)
-    have hr := hr ht.2.2
-    refine ⟨.fixedSizeList p fm m (len + 1) v' cur el', ?_, room_le1 (by simp only [room, hr])⟩
+    simp only [total, totalF, defOKF, noDefUF, Bool.and_eq_true, Bool.not_true, Bool.false_or, Bool.or_eq_true,
+      decide_eq_true_eq] at ht
+    simp only [room] at hk
+    have hm : noDefU cdt = false → m ≤ room el := by
+      intro hnd
+      rcases ht.2.2 with h' | h'
+      · omega
+      · rw [hnd] at h'; cases h'
+    obtain ⟨el', hel, hr1, hr2⟩ := pushDefaultK_total el m cdt cn cmd hwf.2.2 hsel ht.2.1 hm
+    have hr : room el ≤ room el' + 1 := by
+      cases hnd : noDefU cdt with
+      | true => rw [hr2 hnd]; omega
+      | false =>
+        rcases ht.2.2 with h' | h'
+        · omega
+        · rw [hnd] at h'; cases h'
+    refine ⟨.fixedSizeList p fm m (len + 1) v' cur el', ?_, by simp only [room]; exact hr⟩
     simp only [pushNone, ctx_ok]
     exact (bind_ok _ _ _).2 ⟨_, hv, (bind_ok _ _ _).2 ⟨_, hel, rfl⟩⟩
   | .map p mm v offs ks vs, dt, n, md, lv, hwf, hs, _, hi, hk => by
